@@ -430,11 +430,12 @@ func sizes(tier string) (batches, per int) {
 
 func init() {
 	props["C07"] = func(r *Result, d *drv.Driver, tier string, seed int64, replay string) {
-		r.Rule = sessRule("C07 oracle: one response per request in order echoing version/correlation/batch count/operations/IDs with a current timestamp, else close; no later request processed first; plus response writes that fail once (temporary or permanent error, after 0..24 bytes went out): the peer sees one response or a closed connection, nothing else.")
+		r.Rule = sessRule("C07 oracle: one response per request in order echoing version/correlation/batch count/operations/IDs with a current timestamp, else close; no later request processed first; plus response writes that fail once (temporary or permanent error, after 0..24 bytes went out): the peer sees one response or a closed connection, nothing else; plus 60 requests (1..4 items over eight operations with success-by-value / success-by-pointer / error with reason / plain error / nil result / panic / no handler / built-in outcomes; correlation values, versions, header options, inconsistent counts, asynchronous, credentials accepted / refused / uncheckable) whose real response BYTES are compared with the encoding of the Response the message model (KmipModel/Wire.lean) builds.")
 		b, p := sizes(tier)
 		sessionCorrespondence(r, d, seed*31+7, b, p, scriptOpts{maxArr: 8, maxItems: 5}, 150*time.Millisecond, oracleC07)
 		c07Timestamp(r)
 		c07WriteFaults(r)
+		c07Wire(r, d, seed)
 	}
 	props["C08"] = func(r *Result, d *drv.Driver, tier string, seed int64, replay string) {
 		r.Rule = sessRule("C08 oracle: each registered item invoked exactly once in order with its payload; each item's status/reason/message/payload is its own handler's outcome; the process survives (all runs are in-process); plus batches in which a handler panics with values hostile to rendering (panicking Error/String methods, typed nil errors), batches in which a handler RETURNS such an error (typed nil pointer, panicking Error / ResultReason method) or panics with nil, and batches in which a handler returns a first result together with its error (half-filled, typed nil, unencodable), and batches with a handler slower than the server's timeouts.")
